@@ -619,6 +619,21 @@ def cond_cases():
     out.append(['cmpl %ebx, %ecx', 'lahf', 'movb %ah, (%esi)', 'movzbl (%esi), %edx'])
     out.append(['cltd', 'movb %dh, %cl'])
     out.append(['sarl $31, %edx', 'movzbl %dh, %ecx'])
+    # one value cut into many one-bit and one-byte windows: the flags register image, and bytes of one register combined
+    out.append(['pushl %ebx', 'popfl'])
+    out.append(['pushl %ebx', 'popfl', 'setc %al', 'sets %ah', 'seto %dl', 'setp %dh'])
+    out.append(['pushl %ebx', 'popfl', 'pushfl', 'popl %edx'])
+    out.append(['movl $0x8d5, %ebx', 'pushl %ebx', 'popfl', 'lahf'])
+    out.append(['pushl (%esi)', 'popfl', 'adcl %eax, %edx'])
+    out.append(['pushfl', 'popl %eax', 'movzbl %ah, %edx'])
+    out.append(['movb %bh, %ah', 'sahf', 'setc %dl', 'setz %dh'])
+    out.append(['pushw %bx', 'popfw', 'setc %al'])
+    out.append(['movl %eax, %edx', 'shrl $16, %edx', 'xorb %al, %dl'])
+    out.append(['movl %eax, %edx', 'shrl $16, %edx', 'xorb %ah, %dl', 'subb %dh, %al'])
+    out.append(['movl %eax, (%esi)', 'movb 2(%esi), %dl', 'xorb (%esi), %dl'])
+    out.append(['movl %eax, (%esi)', 'movb 3(%esi), %dl', 'cmpb 1(%esi), %dl', 'sete %cl'])
+    out.append(['movl %eax, (%esi)', 'movw 2(%esi), %dx', 'xorw (%esi), %dx'])
+    out.append(['movb %al, %dl', 'xorb %ah, %dl', 'bswap %eax', 'xorb %al, %dl', 'xorb %ah, %dl'])
     return out
 
 
